@@ -501,3 +501,15 @@ Theorem C11_values_for_path_code_is_model : forall pf st m path subkeys, g_field
   run_ValuesForPath pf st m path subkeys = values_for_path pf (g_fieldSep st) (VMap m) path subkeys.
 Proof. exact run_ValuesForPath_eq. Qed.
 Print Assumptions C11_values_for_path_code_is_model.
+
+(* ---- lastKey (the helper Remove and RenameKey take the entry name from) and Map.Root, translated from the current
+   sources (GenProofs/PureG13.v) *)
+From Mxj Require Import GenProofs.PureG13.
+
+Theorem C11_last_key_code : forall st path, fn_lastKey st path = Ret (last (split1 dot path) []).
+Proof. exact last_key_code. Qed.
+Print Assumptions C11_last_key_code.
+
+Theorem C11_root_code : forall st mv, fn_Root st mv = Ret (match mv with [(k, _)] => Ok k | _ => Err EOther end).
+Proof. exact root_code. Qed.
+Print Assumptions C11_root_code.
